@@ -253,8 +253,9 @@ class Flow:
             return v.elts[i], venv
         return d.value, env
 
-    def cone(self, expr, env=None, stop=None):
-        """[expr, defining expressions ...] (transitively).  `stop(e)` true: the sub-expression e is not looked into."""
+    def cone(self, expr, env=None, stop=None, skip_index=False):
+        """[expr, defining expressions ...] (transitively).  `stop(e)` true: the sub-expression e is not looked into.
+        skip_index: of `a[i]` only `a` is looked into (what the value is made of, not what selected it)."""
         out = []
         seen = set()
         env0 = env if env is not None else self.env(self.nodes_of(expr))
@@ -262,6 +263,9 @@ class Flow:
         def walk(e):
             yield e
             if stop is not None and stop(e):
+                return
+            if skip_index and isinstance(e, ast.Subscript):
+                yield from walk(e.value)
                 return
             for c in ast.iter_child_nodes(e):
                 yield from walk(c)
@@ -284,16 +288,19 @@ class Flow:
         visit(expr, env0)
         return out
 
-    def atoms(self, expr, env=None, stop=None):
+    def atoms(self, expr, env=None, stop=None, skip_index=False):
         """all syntax nodes of the cone (stop-pruned)."""
         def walk(e):
             yield e
             if stop is not None and stop(e):
                 return
+            if skip_index and isinstance(e, ast.Subscript):
+                yield from walk(e.value)
+                return
             for c in ast.iter_child_nodes(e):
                 yield from walk(c)
 
-        for e in self.cone(expr, env, stop):
+        for e in self.cone(expr, env, stop, skip_index):
             yield from walk(e)
 
     def roots(self, expr, env=None, stop=None):
